@@ -344,7 +344,7 @@ RULES = {
     'lexx': 'small-scope exhaustive: every sequence of up to 3 (thorough: 4) tokens from {a b1 1 0 255 256 01 . : * [ ] ::1 - _ / 80 8080 65536 xn-- A space} after each of https:// http:// https://*. http://[ through ParsePattern and Parse; distinct by case hash',
     'acrhx': 'small-scope exhaustive: every subset of the allowed names {a b ab} (thorough: {a b ab abc}) x every sequence of up to 4 (thorough: 5) tokens from {a b ab abc c , space tab A} as one ACRH field line, and every split of the shorter sequences over two field lines, through headers.Check; distinct by case hash',
     'treex': 'small-scope exhaustive: every ordered selection of up to 3 (thorough: 4) of 12 mutually related patterns (a host, its subdomains, the wildcards over them, other scheme, explicit and wildcard ports) inserted in that order, 48 fixed probes, Elems; distinct by case hash',
-    'validatex': 'small-scope exhaustive: every sequence of up to 2 (thorough: 3) atoms in one list field at a time (8 request-header atoms x credentialed, 8 method atoms, 7 response-header atoms x credentialed, 10 origin atoms (up to 2) x credentialed x PNA modes x both tolerate switches) and every combination of 7 max-age and 9 status values, through NewMiddleware; distinct by case hash',
+    'validatex': 'small-scope exhaustive: every sequence of up to 2 (thorough: 3) atoms in one list field at a time (10 request-header atoms x credentialed, 8 method atoms, 7 response-header atoms x credentialed, 10 origin atoms (up to 2) x credentialed x PNA modes x both tolerate switches) and every combination of 7 max-age and 9 status values, through NewMiddleware; distinct by case hash',
     'servex': 'small-scope exhaustive: 8 configurations (one per decision regime) x method {OPTIONS, GET, options} x 7 Origin atoms x 8 ACRM atoms x 6 (thorough: 9) ACRH atoms x 3 ACRPN atoms x upstream Vary or not x debug; non-trivial = the middleware wrote a status or an Access-Control-* header; distinct by case hash',
     'ip6x': 'small-scope exhaustive on IPv6 text between brackets: every sequence of up to 3 (thorough: 4) tokens from {0 1 12 abcd ABCD 00 0abc 12345 g : :: . 1.2.3.4 255 256 01 % eth0 ffff 7f00}, and every address text of up to 8 fields over {0, 1, ffff} with `::` at every position or absent, with and without an IPv4 tail, through ParsePattern (and Parse); the model answers with its own model of net/netip and the driver compares that model with the library on every reported host; distinct by case hash',
     'history': 'random operation sequences (SetDebug, Reconfigure nil/valid/invalid/Config()) over 1-3 middlewares with probes after every step; non-trivial = state-changing or observing operation; distinct by case hash',
@@ -436,7 +436,8 @@ PROPS = {
     # the adversarial history (in-place writes to Config() results and to the Config passed in) checks "never mutated after publication"
     'C07': dict(suites=[('schedule', 250, 6000), ('stress', 6, 20), ('history', 100, 2000, ('-adversarial',))],
                 cmps=[C('schedule', 'full', 'spec'), C('stress', 'full', 'spec'), C('history', 'dec', 'spec')]),
-    'C08': dict(suites=[('history', 250, 6000)], cmps=[C('history', 'dec', 'spec')]),
+    # "rejected" presupposes that invalid configurations are rejected: acceptance over the exhaustive single-field configurations
+    'C08': dict(suites=[('history', 250, 6000), ('validatex', 2, 3)], cmps=[C('history', 'dec', 'spec'), C('validatex', 'accept', 'spec')]),
     # the diagnostics of every failing step, on the broad single-request generator as well as inside histories
     'C09': dict(suites=[('history', 250, 6000), ('pairs09', 3000, 100000), ('serve', 4000, 100000), ('servex', 1, 2)],
                 cmps=[C('history', 'dec', 'spec'), C('pairs09', 'full', 'spec'), C('serve', 'dec', 'spec'), C('servex', 'dec', 'spec')]),
